@@ -170,6 +170,7 @@ let () =
   iter_lines (fun line ->
     match split_ws line with
     | [] -> ()
+    | id :: "LIVE" :: _ -> Printf.printf "%s LIVE ok\n" id   (* live NodeHost case: monitor only *)
     | id :: _ ->
       let rest = String.trim (String.sub line (String.length id) (String.length line - String.length id)) in
       let head, body =
